@@ -34,7 +34,7 @@ PreVals == [i \in 1..(Pre * Ch) |-> 100 + i]
 Init ==
     /\ s = [life |-> "open", mode |-> Mode, ch |-> Ch, fmt |-> Fmt, rate |-> 8000, B |-> 1, gran |-> TRUE, skb |-> TRUE,
             frames |-> Pre, rpos |-> 0, wpos |-> (IF Mode = SFM_RDWR THEN Pre ELSE 0), err |-> FALSE,
-            hw |-> (Mode = SFM_RDWR /\ Pre > 0), auto |-> FALSE, relax |-> FALSE, cid |-> 0, fid |-> 1, route |-> "fd", nd |-> 1, nf |-> 1, sif |-> 0, sfi |-> 0, cl |-> 0]
+            hw |-> (Mode = SFM_RDWR /\ Pre > 0), auto |-> FALSE, relax |-> FALSE, cid |-> 0, fid |-> 1, route |-> "fd", nd |-> 1, nf |-> 1, sif |-> 0, sfi |-> 0, cl |-> 0, flen |-> -1]
     /\ cv = [NewContent EXCEPT !.val = PreVals, !.kt = [i \in 1..(Pre * Ch) |-> "s"]]
     /\ hist = <<>> /\ nw = 0 /\ ok = TRUE
     /\ lastc = [op |-> "none"] /\ lasto = [ret |-> 0, er |-> 0]
